@@ -341,7 +341,7 @@ def run(rep: C.Report) -> None:
          "^trail_": dict(name="Ob8 text arriving after a closed link: the link keeps at most one (trail) string, nothing is lost or reordered", functions=["parser.py:text_fn (link trail)"], bounds="link with or without a trail; one token of 1..2 (thorough 3) or two tokens of 1..2 symbolic characters over {a,s,space,!,'}"),
          "^magic_": dict(name="Ob7 re-parsing the arguments of a saved template / parameter reference / link / external link leaves nothing open that it opened and never pops ROOT (no exception)", functions=["parser.py:magic_fn", "parser.py:_parser_pop", "parser.py:process_text"], bounds="4 construct kinds x {top level, table cell} x optional open italic x 2 (thorough 3) arguments each drawn from 10 argument texts with open/close formatting, rule and list lines (symbolic indices: solver-driven case split)"),
          "^url_": dict(name="Ob6 the URL part of an external link is merged and finalized when it becomes an argument", functions=["parser.py:text_fn (URL whitespace branch)"], bounds="2..3 string children of one symbolic char over {a, space, placeholder}"),
-         "^attrs_": dict(name="Ob5 no placeholder character survives in attribute values when a node is popped", functions=["parser.py:_parser_pop"], bounds=f"attribute value of 0..{2 if quick else 3} symbolic chars over {{a, space, placeholder}}; HTML element and table row"),
+         "^attrs_": dict(name="Ob5 no placeholder character survives in attribute values when a node is popped", functions=["parser.py:_parser_pop"], bounds=f"attribute value of 0..{2 if quick else 3} symbolic chars over {{a, space, template placeholder, <nowiki /> placeholder}}; HTML element and table row"),
          "^merge_": dict(name="Ob4 merge kernel: no empty string, no adjacent strings, no placeholder character, nodes kept", functions=["parser.py:_parser_merge_str_children", "core.py:Wtp._finalize_expand"], bounds=f"children lists of {3 if quick else 4} entries (every node/string skeleton), strings <= {1 if quick else 2} symbolic chars over {{a, newline, nowiki-, bracket-placeholders}}")},
         timeout=60 if quick else 300,
         src=src,
